@@ -204,6 +204,14 @@ func subset(mask int, base []int) []int {
 func gen(g *hx.Gen) {
 	r := g.Rng
 	// ---- corpus: the inputs that failed on the pinned tree (fixed by fffffa6, 0b58617 and 0a753bf)
+	// Range overflowed near the ends of int until ffebdff (hang, wrong result, panic in make)
+	g.Emit("range 9223372036854775802 9223372036854775807 10;")
+	g.Emit("range 9223372036854775806 9223372036854775803 -3;")
+	g.Emit("range 9223372036854775807 9223372036854775804 -1;")
+	g.Emit("range 0 -9223372036854775808 -9223372036854775808;")
+	g.Emit("range -9223372036854775807 4611686018427387904 1152921504606846976;")
+	g.Emit("range 4611686018427387904 -4611686018427387914 -2305843009213693952;")
+	g.Emit("range -9223372036854775808 9223372036854775807 1;") // 2^64-1 elements: make panics
 	g.Emit("seq 5,6,7+;C:2") // panicked (negative capacity) until 0a753bf
 	g.Emit("seq -4,-1,0,2,9+990001;C:3 C:0 C:-2 C:1 C:12")
 	g.Emit("seq -2,3,4+;a:-2,-2,5,4")
